@@ -70,3 +70,22 @@ Theorem C08_distances_one_per_pose_from_zero : forall (a : V3R) r,
   length (@distances R _ (a :: r)) = length (a :: r) /\ hd 1 (@distances R _ (a :: r)) = 0.
 Proof. exact distances_spec. Qed.
 Print Assumptions C08_distances_one_per_pose_from_zero.
+
+(* ---- derived quantities under the operations (added after every property had a check) ---- *)
+(* left-multiplication by a rigid motion keeps all accumulated distances and the path length *)
+Theorem C08_left_rigid_transform_keeps_distances_and_path_length : forall (t : PoseR) (P : list PoseR), SE3 t ->
+  @distances R _ (map ptr (transform_poses t false false P)) = @distances R _ (map ptr P) /\
+  @path_length R _ (map ptr (transform_poses t false false P)) = @path_length R _ (map ptr P).
+Proof. exact left_rigid_transform_keeps_distances. Qed.
+Print Assumptions C08_left_rigid_transform_keeps_distances_and_path_length.
+(* scaling by k multiplies every step length, hence the path length, by |k| *)
+Theorem C08_scaling_multiplies_path_length : forall k (xs : list V3R),
+  @step_lengths R _ (map (vscale k) xs) = map (Rmult (Rabs k)) (@step_lengths R _ xs) /\
+  @path_length R _ (map (vscale k) xs) = Rabs k * @path_length R _ xs.
+Proof. intros k xs. split; [apply step_lengths_scale|apply path_length_scale]. Qed.
+Print Assumptions C08_scaling_multiplies_path_length.
+(* the accumulated distances never decrease and end at the path length *)
+Theorem C08_distances_nondecreasing_and_end_at_path_length : forall xs : list V3R,
+  nondecreasing_from 0 (@cumsum R _ 0 (@step_lengths R _ xs)) /\ last (@distances R _ xs) 0 = @path_length R _ xs.
+Proof. intros xs. split; [apply distances_nondecreasing|apply distances_end_at_path_length]. Qed.
+Print Assumptions C08_distances_nondecreasing_and_end_at_path_length.
